@@ -40,7 +40,7 @@ add("C08", "exploration", "runtime monitoring: unique-id histories, position-bas
     "id -> pseudonym observed to be a function and injective over documents with heavy repetition, mixed classes, enclosing variants and $9$ re-encodings; live lookup grows monotonically with distinct values.",
     "Forms with a known C07 finding are not drawn.", "DESIGN.md 2/C08")
 add("C09", "exploration", "runtime monitoring: independent decoders / shape checks on extracted replacements, contract on the real value anonymizer",
-    "Every replacement observed for every class x form x enclosing x first salt character is accepted by an independent decoder for the original's class and the line keeps its template shape. One known finding (all-digit type 7).",
+    "Every replacement observed for every class x form x enclosing x first salt character is accepted by an independent decoder for the original's class and the line keeps its template shape. Two known findings (all-digit type 7; clear text after its $9$ twin).",
     "Own type-7 and $9$ decoders written from the published algorithms; crypt shapes by regex.", "DESIGN.md 2/C09")
 add("C10", "exploration", "runtime monitoring: substring-search oracle + label-based token oracle + fresh-anonymizer pseudonym reference, CLI children under varied PYTHONHASHSEED",
     "No listed word observed in any output outside reserved tokens; reserved tokens and reserved secret values unchanged; pseudonyms equal those a fresh single-word anonymizer gives; outputs equal across hash seeds.",
@@ -52,7 +52,7 @@ add("C12", "exploration", "runtime monitoring: label-based per-line structure or
     "Line count, terminators, leading/trailing whitespace, benign and switched-off items and separators conserved on every observed text; each line independent of the others modulo pseudonym renumbering.",
     "Benign vocabulary is fixed data; tokens are re-labelled from content where a random value happens to contain a listed item.", "DESIGN.md 2/C12")
 
-add("C13", "exploration", "runtime monitoring: byte comparison of outputs across repeated runs, child interpreters with varied PYTHONHASHSEED, and histories of earlier anonymizers in the same process; module-level state watched at quiescent points",
+add("C13", "exploration", "runtime monitoring: byte comparison of outputs across repeated runs, child interpreters with varied PYTHONHASHSEED / optimisation level / stray environment and home-directory files, warnings-as-errors and DEBUG logging in process, pre-populated output paths, and histories of earlier anonymizers in the same process; module-level state watched at quiescent points",
     "Identical bytes observed across repetitions, hash seeds (library driver and CLI) and after histories of unrelated anonymizers; the reported random salt reproduces the output.",
     "Harness never seeds the global random module; option lists are fresh objects.", "DESIGN.md 2/C13")
 add("C14", "exploration", "runtime monitoring: hostile-input workload (enumerated piece strings, grammar-aware hostile fillers in every slot of every catalogue form, long runs, coverage-guided mutation via sys.monitoring) with the exception itself as oracle",
@@ -63,14 +63,14 @@ add("C15", "exploration", "runtime monitoring: differential two-pipeline monitor
     "Single-feature anonymizers built through the same public constructor.", "DESIGN.md 2/C15")
 add("C16", "fault_enumeration", "runtime monitoring with fault injection: generated trees, every fault kind at every position and pair of positions for small trees, audit-hook + strace + snapshot observers, reference run without the failing files, entry-point differential",
     "Exhaustive fault kind x position (and pairs) for trees of <= 6 files, sampled for larger ones; path set, untouched inputs, ERROR records, isolation and entry-point agreement observed on every run.",
-    "Dot-directories and aliased input/output paths are not generated.", "DESIGN.md 2/C16")
+    "Dot-directories and aliased input/output paths are not generated (an output directory INSIDE the input directory, symbolic links among the inputs, link/../dir spellings, a low descriptor limit and the C locale are).", "DESIGN.md 2/C16")
 add("C17", "exploration", "runtime monitoring: applied pairs read off generator labels in the written files vs parsed dump; fresh-instance reference for every dumped line",
     "Every applied pair found in the dump with the replacement used, uniqueness of originals and replacements, every dumped pair agrees with the reference, via library and CLI, both families, many host-bit values.",
     "Output tokens are read back by position assuming non-address text is unchanged (C06's oracle).", "DESIGN.md 2/C17")
 add("C18", "exploration", "runtime monitoring: round-trip oracle + independent decoder on the real codec, exhaustive over salt x code point x table position, mutation of ciphertexts for the malformed half",
     "All 65 x 256 x 7 (salt, code point, position) triples enumerated; random plaintexts and salt strings; malformed strings must raise ValueError exactly when the independent grammar rejects them. One known finding (empty plaintext).",
     "Independent codec written from the published algorithm.", "DESIGN.md 2/C18")
-add("C19", "exploration", "runtime monitoring: main() driven in process and as child process over generated argument vectors; audit-hook / strace / snapshot observers; differential between spellings and against the documented library translation",
+add("C19", "exploration", "runtime monitoring: main() driven in process, as child process and at a pseudo-terminal over generated argument vectors (every argparse spelling, stray environment variables and per-user config files present); audit-hook / strace / snapshot observers; differential between spellings and against the documented library translation",
     "Every rejection kind in every spelling ends in an error with zero write events; command line / config file / mixed / conflicting spellings and the direct library call produce identical trees and dumps; defaults and the private-address equivalence observed.",
     "Config values restricted to [A-Za-z0-9._/,:-]+.", "DESIGN.md 2/C19")
 
